@@ -477,7 +477,11 @@ def judge(pid, seed, tier):
         combos = [(np.array([1.5, 2.25, 0.5, 3.75]), np.array([1, 2, 3, 2], dtype=np.int64)),          # float observations, integer predictions
                   (np.array([1, 2, 2, 6], dtype=np.int64), np.array([2.75, 1.5, 2.5, 3.25], dtype=np.float32)),   # integer observations, float32 predictions
                   (np.array([1, 2, 2, 6], dtype=np.int32), np.array([2.75, 1.5, 2.5, 3.25], dtype=np.float32)),
-                  (np.array([2, 2, 1, 3], dtype=np.int64), np.array([2, 1, 3, 3], dtype=np.int64))]           # all integers (ties included)
+                  (np.array([2, 2, 1, 3], dtype=np.int64), np.array([2, 1, 3, 3], dtype=np.int64)),           # all integers (ties included)
+                  # unsigned integers (count data; polars count columns are UInt32): differences must not wrap around
+                  (np.array([3, 1, 2, 6], dtype=np.uint8), np.array([1, 2, 2, 4], dtype=np.uint8)),
+                  (np.array([3, 1, 2, 6], dtype=np.uint32), np.array([1.5, 2.0, 2.5, 7.0])),
+                  (np.array([3.0, 1.0, 2.5, 6.0]), np.array([1, 2, 2, 4], dtype=np.uint16))]
         if pid == "C08":
             fns = [(f"identification_function[{f}]", (lambda y, z, f=f: identification_function(y, z, functional=f, level=0.3))) for f in ("mean", "median", "expectile", "quantile")]
         elif pid == "C15":
